@@ -321,5 +321,43 @@ fn unlisted_probe() {
             }
         }
     }
+    // the script record through which the language system was found does not decide whether Arabic text is joined: a font
+    // that registers init / fina under DFLT only shapes Arabic text like its twin that registers them under arab
+    let forms = |script_tag: [u8; 4]| -> Vec<u8> {
+        let mut spec = FontSpec::basic(6);
+        spec.cmap = vec![(beh, 1)];
+        let fina = Lookup::one(SubstSubtable::Single2 { coverage: Coverage::Glyphs(vec![1]), substitutes: vec![3] });
+        let init = Lookup::one(SubstSubtable::Single2 { coverage: Coverage::Glyphs(vec![1]), substitutes: vec![2] });
+        let mut layout = Layout::with_features(vec![(*b"fina", vec![0]), (*b"init", vec![1])], vec![fina, init]);
+        layout.scripts = vec![ScriptRecord { tag: script_tag, default_langsys: Some(LangSys { required_feature: None, feature_indices: vec![0, 1] }), langsys: vec![] }];
+        spec.gsub = Some(layout);
+        build(&spec)
+    };
+    for (set_script, lang) in [(false, None), (true, None), (true, Some("fa")), (true, Some("ar"))] {
+        let shape = |data: Vec<u8>| -> Result<Vec<u32>, String> {
+            let l = lang.map(|x: &str| x.to_string());
+            catch(move || {
+                let face = rustybuzz::Face::from_slice(&data, 0).unwrap();
+                let mut b = rustybuzz::UnicodeBuffer::new();
+                b.push_str("\u{0628}\u{0628}");
+                if set_script {
+                    b.set_script(rustybuzz::script::ARABIC);
+                    b.set_direction(rustybuzz::Direction::RightToLeft);
+                }
+                if let Some(l) = &l {
+                    if let Ok(x) = std::str::FromStr::from_str(l) {
+                        b.set_language(x);
+                    }
+                }
+                rustybuzz::shape(&face, &[], b).glyph_infos().iter().map(|i| i.glyph_id).collect()
+            })
+        };
+        let (a, b) = (shape(forms(*b"DFLT")), shape(forms(*b"arab")));
+        n += 1;
+        if a != b || a.as_ref().map(|v| v.iter().all(|g| *g == 1)).unwrap_or(true) {
+            bad += 1;
+            println!("unlisted-probe differ variant=dflt-vs-arab lang={:?} set_script={} under_DFLT={:?} under_arab={:?}", lang, set_script, a, b);
+        }
+    }
     println!("unlisted-probe cases={} bad={}", n, bad);
 }
